@@ -204,13 +204,9 @@ def run(rep, tier):
     for n in range(0, nmax + 1):
         total = K ** n
         step = 128 if n < 4 else 256
-        # every tree shape for every operator sequence (all shapes up to 3 operators; for 4: natural + flat, and all shapes on a sample)
+        # every tree shape for every operator sequence (5 shapes for 3 operators, 14 for 4)
         for s in range(0, total, step):
-            jobs.append((n, s, min(total, s + step), rng.randrange(1 << 30), n <= 3))
-    if tier == "thorough":
-        for _ in range(400):
-            s = rng.randrange(0, K ** 4 - 64)
-            jobs.append((4, s, s + 64, rng.randrange(1 << 30), True))
+            jobs.append((n, s, min(total, s + step), rng.randrange(1 << 30), True))
     ntexts = 0
     adjacency = {}
     for res in core.pool().imap_unordered(parse_work, jobs, chunksize=1):
@@ -253,7 +249,7 @@ def run(rep, tier):
         descs = keep
     harness.run_cases(rep, "seedverif.checks.c08", descs, {"oracle": "model evaluation of the intended grouping"})
     rep.exhaustive = True
-    rep.rule = ("every sequence of the 16 infix forms up to length %d x every tree shape (<=3 operators) printed with only the necessary parentheses, "
+    rep.rule = ("every sequence of the 16 infix forms up to length %d x every tree shape printed with only the necessary parentheses, "
                 "with redundant parentheses, and as a flat parenthesis-free spelling, parsed by the real parser (AST dump hook) and compared with the tree it was printed from; "
                 "random deep trees; flat sequences evaluated through the CLI against the model; distinct = distinct source texts (all are, operands vary); "
                 "non-trivial = contains at least one infix operator") % nmax
